@@ -412,18 +412,12 @@ func scanKalg(c *core.Ctx) []ob {
 			if !ok || fd.Body == nil || fd.Recv == nil || !fd.Name.IsExported() || core.RecvTypeName(fd) != "SubRing" {
 				continue
 			}
-			if len(fd.Body.List) != 1 {
+			call0, callArgs := forwardingCall(info, fd)
+			if call0 == nil {
 				continue
 			}
-			es, ok := fd.Body.List[0].(*ast.ExprStmt)
-			if !ok {
-				continue
-			}
-			call, ok := es.X.(*ast.CallExpr)
-			if !ok {
-				continue
-			}
-			kern := calleeFunc(info, call)
+			call := &ast.CallExpr{Fun: call0.Fun, Lparen: call0.Lparen, Args: callArgs, Rparen: call0.Rparen}
+			kern := calleeFunc(info, call0)
 			kd := decl[kern]
 			if kern == nil || kd == nil || kd.Recv != nil {
 				continue
